@@ -25,7 +25,7 @@ Definition BASE_HEADER_SIZE : N := 8.
 Definition PADDING_BOUNDARY : N := 32.
 Definition METADATA_SIZE : N := 16.
 
-Definition entry := (bytes * bytes)%type.      (* (encoded name, contents) *)
+Notation entry := (bytes * bytes)%type (only parsing).      (* (encoded name, contents) *)
 
 (* IndexMap::insert *)
 Fixpoint im_insert (k v : bytes) (l : list entry) : list entry :=
